@@ -164,6 +164,7 @@ def handle (words : List String) : String :=
       let vars0 := (mainDecls funcs prog).foldl (fun vs (n, t) => if vs.any (·.1 == n) then vs else vs ++ [(n, Val.null t)]) ([] : List (String × Val))
       let (rs, st) := runInteractive funcs (fuel.toNat?.getD 100000) prog { vars := vars0 }
       let showR := fun (r : Res Flow) => match r with
+        | .ok .ret => "ret"
         | .ok _ => "ok"
         | .err c a => if c == oofCode then "oof" else resStr (.err c a : Res Val)
         | .haz h => resStr (.haz h : Res Val)
